@@ -1,4 +1,5 @@
 import DirectVerif.Lemmas.C06Assemble
+import DirectVerif.Lemmas.C06Seed
 /-!
 # C06 — the autocalibration region is fully sampled, centred and of the requested size
 
@@ -12,7 +13,7 @@ balanced within one column.  2-D generators: `centeredDisk` — a disc about the
 `(rows / 2, cols / 2)`, point-symmetric about it.  Every generator: ACS ⊆ mask.
 -/
 namespace DirectVerif.C06
-open DirectVerif DirectVerif.MaskGeom
+open DirectVerif DirectVerif.MaskGeom DirectVerif.C06Seed
 
 /-! ## the centre block of the line generators -/
 
@@ -186,6 +187,126 @@ theorem acs_subset_mask (g : Gen) (m : Mode) (shape : List Nat) (spec : AcsSpec)
     (hm : assemble g m shape spec false interior = .ok tm) :
     ta.shape = tm.shape ∧ ∀ i : Nat, ta.data[i]? = some true → tm.data[i]? = some true :=
   assemble_acs_subset g m shape spec interior hlen ta tm ha hm
+
+/-! ## one object, many requests: seeds, pair choice, call histories (`Model/C06Seed.lean`)
+
+`call` is the machine selected by the translated facts (`Bridge.C06.code_machine`): `temp_seed` hands the seed to
+`rng.seed` unchanged, nothing but the (restored) random stream is written.  All statements hold for every random
+stream (`RngOps`), every configuration (any number of pairs), every history, every seed — falsy ones included. -/
+
+section histories
+variable {σ Seed : Type}
+
+/-- a request leaves the object exactly as it found it -/
+theorem call_leaves_object (ops : RngOps σ Seed) (cfg : Cfg σ) (o : Obj σ) (c : Call Seed) :
+    (call ops cfg o c).2 = o := by rw [call_eq]
+
+/-- **history independence**: whatever the object (and whichever object) has served before, a request gets the
+answer a brand-new object gives — a function of (shape, seed, return_acs) alone -/
+theorem answer_history_independent (ops : RngOps σ Seed) (cfg : Cfg σ) (o o' : Obj σ) (h h' : List (Call Seed))
+    (c : Call Seed) :
+    lastAnswer .unchanged .none ops cfg o (h ++ [c]) = lastAnswer .unchanged .none ops cfg o' (h' ++ [c]) := by
+  rw [lastAnswer_append, lastAnswer_append]
+
+/-- every answer of a history, at once -/
+theorem history_answers (ops : RngOps σ Seed) (cfg : Cfg σ) (o : Obj σ) (cs : List (Call Seed)) :
+    (run ops cfg o cs).1 = cs.map (oneShot ops cfg) := by rw [run_eq]
+
+/-- the ACS request and the mask request with the same arguments select the same (centre fraction, acceleration)
+pair — the index is the first draw of the stream seeded with the caller's seed, in both -/
+theorem same_pair_selected (ops : RngOps σ Seed) (cfg : Cfg σ) (shape : List Nat) (s : Seed) :
+    oneShot ops cfg ⟨shape, s, true⟩ =
+        assemble cfg.gen cfg.mode shape (cfg.spec (ops.choice (ops.seed s) cfg.npairs) shape) true (cfg.interior (ops.seed s) shape) ∧
+    oneShot ops cfg ⟨shape, s, false⟩ =
+        assemble cfg.gen cfg.mode shape (cfg.spec (ops.choice (ops.seed s) cfg.npairs) shape) false (cfg.interior (ops.seed s) shape) :=
+  ⟨rfl, rfl⟩
+
+/-- **ACS ⊆ mask across histories**: the ACS an object returns for `(shape, seed)` after any history is a subset of
+the sampling mask any object of the same configuration returns for `(shape, seed)` after any other history. -/
+theorem acs_subset_mask_any_history (ops : RngOps σ Seed) (cfg : Cfg σ) (o₁ o₂ : Obj σ) (h₁ h₂ : List (Call Seed))
+    (shape : List Nat) (s : Seed)
+    (hlen : ∀ p ∈ cfg.interior (ops.seed s) shape, p.length = patLen cfg.gen.family (rowsOf shape) (colsOf shape))
+    (ta tm : Tensor Bool)
+    (ha : lastAnswer .unchanged .none ops cfg o₁ (h₁ ++ [⟨shape, s, true⟩]) = some (.ok ta))
+    (hm : lastAnswer .unchanged .none ops cfg o₂ (h₂ ++ [⟨shape, s, false⟩]) = some (.ok tm)) :
+    ta.shape = tm.shape ∧ ∀ i : Nat, ta.data[i]? = some true → tm.data[i]? = some true := by
+  rw [lastAnswer_append] at ha hm
+  simp only [Option.some.injEq] at ha hm
+  exact assemble_acs_subset cfg.gen cfg.mode shape _ _ hlen ta tm ha hm
+
+/-- the width of the ACS of a line generator is the width configured for the selected pair, after any history -/
+theorem acs_width_any_history (ops : RngOps σ Seed) (cfg : Cfg σ) (o : Obj σ) (h : List (Call Seed))
+    (shape : List Nat) (s : Seed) (l : Int)
+    (hspec : cfg.spec (ops.choice (ops.seed s) cfg.npairs) shape = .lines l) :
+    lastAnswer .unchanged .none ops cfg o (h ++ [⟨shape, s, true⟩]) =
+      some (assemble cfg.gen cfg.mode shape (.lines l) true (cfg.interior (ops.seed s) shape)) := by
+  rw [lastAnswer_append, (same_pair_selected ops cfg shape s).1, hspec]
+
+end histories
+
+/-! ## from the configured pair to the ACS width -/
+
+/-- the constructor guards decide which branch of the glue runs: an accepted FastMRI* centre fraction is multiplied
+with the width and rounded, an accepted Cartesian* value is the number of lines itself -/
+theorem ctor_selects_branch (cols : Nat) (p : PairCfg) (isInt : Bool) :
+    (∀ g, (g = .fastmriRandom ∨ g = .fastmriEquispaced) → ctorAccepts g p isInt = true →
+      numLow g cols p = C06Round.roundMul cols p.cfNum p.cfDen) ∧
+    (∀ g, (g = .cartesianRandom ∨ g = .cartesianEquispaced) → ctorAccepts g p isInt = true →
+      numLow g cols p = C06Round.truncQ p.cfNum p.cfDen) := by
+  constructor
+  · rintro g (rfl | rfl) h <;>
+    · simp only [ctorAccepts, C06Round.fractionAccepted, Int.one_mul, Int.ofNat_lt, Bool.and_eq_true, decide_eq_true_eq] at h
+      simp [numLow, numLowFreqs, h.2]
+  · rintro g (rfl | rfl) h <;>
+    · simp only [ctorAccepts, C06Round.countAccepted, Int.one_mul, Int.ofNat_lt, Bool.and_eq_true, decide_eq_true_eq] at h
+      have : ¬ p.cfNum < p.cfDen := by omega
+      simp [numLow, numLowFreqs, this]
+
+/-- Magic generators: the width is the raw width capped by the budget `round(cols / acceleration)`, at least 1 -/
+theorem magic_width_bounds (g : Gen) (hg : g = .fastmriMagic ∨ g = .cartesianMagic) (cols : Nat) (p : PairCfg) :
+    1 ≤ numLow g cols p ∧
+    (1 ≤ C06Round.roundQuot cols p.accNum p.accDen → numLow g cols p ≤ C06Round.roundQuot cols p.accNum p.accDen) := by
+  rcases hg with rfl | rfl <;>
+  · simp only [numLow]
+    exact ⟨(magic_cap _ _).1, fun h => (magic_cap _ _).2.1 (by exact_mod_cast h)⟩
+
+/-- a two-pair configuration on a 1 × 4 grid (ACS widths 3 and 1) and a stream given by tables -/
+def demoCfg : Cfg Nat where
+  gen := .cartesianRandom
+  mode := .static
+  npairs := 2
+  spec k _ := .lines (if k = 0 then 3 else 1)
+  interior _ _ := [[false, false, false, false]]
+
+/-- **why the seed must go through unchanged** (`rng.seed(seed or None)`): seed `0` is falsy, the ACS request and the
+mask request read OS entropy independently (choices 0 and 1): ACS columns 1..3, mask column 2 only -/
+theorem seed_or_none_violates :
+    ((runWith .orNone .none (tableOps [0] [0, 1] [true]) demoCfg newObj [⟨[1, 4, 2], 0, true⟩, ⟨[1, 4, 2], 0, false⟩]).1.map
+        fun r => r.toOption.map (·.data)) =
+      [some [false, true, true, true], some [false, false, true, false]] := by decide
+
+/-- the same two requests on the code as it is: the mask contains the ACS -/
+example :
+    ((run (tableOps [0] [0, 1] [true]) demoCfg newObj [⟨[1, 4, 2], 0, true⟩, ⟨[1, 4, 2], 0, false⟩]).1.map
+        fun r => r.toOption.map (·.data)) =
+      [some [false, true, true, true], some [false, true, true, true]] := by decide
+
+/-- **why nothing may be remembered** (an ACS memo keyed by the shape): seeds 0 and 1 select the pairs with widths 3
+and 1; the second ACS request on the same object gets the first block (3 columns instead of 1) -/
+theorem shape_memo_violates :
+    ((runWith .unchanged .byShape (tableOps [0, 1] [] []) demoCfg newObj [⟨[1, 4, 2], 0, true⟩, ⟨[1, 4, 2], 1, true⟩]).1.map
+        fun r => r.toOption.map (·.data)) =
+      [some [false, true, true, true], some [false, true, true, true]] ∧
+    (oneShot (tableOps [0, 1] [] []) demoCfg ⟨[1, 4, 2], 1, true⟩).toOption.map (·.data) = some [false, false, true, false] ∧
+    (oneShot (tableOps [0, 1] [] []) demoCfg ⟨[1, 4, 2], 1, false⟩).toOption.map (·.data) = some [false, false, true, false] := by
+  decide
+
+/-- the hypotheses of `acs_subset_mask_any_history` are satisfiable: both requests return, after different histories -/
+example :
+    (lastAnswer .unchanged .none (tableOps [0, 1] [] []) demoCfg newObj ([⟨[1, 4, 2], 1, true⟩] ++ [⟨[1, 4, 2], 0, true⟩])).map
+        (·.toOption.isSome) = some true ∧
+    (lastAnswer .unchanged .none (tableOps [0, 1] [] []) demoCfg newObj ([] ++ [⟨[1, 4, 2], 0, false⟩])).map
+        (·.toOption.isSome) = some true := by decide
 
 /-! ## non-vacuity / regression examples -/
 
